@@ -19,10 +19,15 @@ LEVEL = 'model_checking'
 ENGINE = 'E2 small-scope enumeration against a Counter reference'
 RULE = ('all ordered pairs (a, b) of rectangular tables: width 1 over K6 = {None, i1, i2, s1, float(i1), s2} and '
         'width 2 over K3 x K3 = {None, i1, s1}^2, every row count up to the bound on each side (empty sides '
-        'included), plus all width-1 x width-2 pairs; x complement/intersection/diff/hashcomplement/'
+        'included), plus all width-1 x width-2 pairs, plus width 3 (columns over {None, i1} x {i1, s1} x {None, s1}, '
+        '<= 2 rows a side) so that all 6 column permutations of b - including the non-self-inverse 3-cycles - are '
+        'enumerated for the record variants; x complement/intersection/diff/hashcomplement/'
         'hashintersection/recordcomplement/recorddiff x strict on/off x buffersize in {None, 1} x presorted=True '
         '(only on pairs that are already lexically sorted under the reference order) x b header same/renamed x '
-        'every column permutation of b for the record variants. states = (pair, call form) points; a pair is '
+        'every column permutation of b for the record variants x row-container type of each side independently '
+        '(tuple of tuples / list of lists / etl.wrap(list of lists) / etl.sort(list of lists) on an already sorted '
+        'side), crossed with every call form incl. presorted on/off (form set "cont", on the <= 2-3-row blocks over '
+        'the reduced alphabets). states = (pair, call form, container combination) points; a pair is '
         'non-trivial when both sides are non-empty, some row of a occurs in b and some row of a does not. '
         'Excluded: non-rectangular tables (statement), unhashable cells (hash variants cannot take them), '
         'record variants on tables whose field sets differ (documented precondition); the order of the '
@@ -32,8 +37,15 @@ ASSUMPTIONS = ['cell domain limited to one or two representatives per type class
                'classes (3 x 3 rows, 4 + 3 rows) are enumerated completely over a reduced alphabet (see bounds.blocks)',
                'row identity is Python == on tuples (1 and 1.0 are the same cell value)']
 
-HDR = {1: ('x',), 2: ('x', 'y')}
-RENAMED = {1: ('p',), 2: ('p', 'q')}
+HDR = {1: ('x',), 2: ('x', 'y'), 3: ('x', 'y', 'z')}
+RENAMED = {1: ('p',), 2: ('p', 'q'), 3: ('p', 'q', 'r')}
+
+# row-container axis: how each input table is handed to petl (the property is about rows as values)
+#   'tuple' tuple of tuples; 'list' list of lists; 'wrap' etl.wrap(list of lists) (a petl Table, list rows);
+#   'sortview' etl.sort(list of lists) (a petl view, tuple rows) - only used on a side that is already sorted
+#   under the reference order, where the stable sort leaves the row sequence unchanged
+CONTAINERS = ('tuple', 'list', 'wrap', 'sortview')
+PLAIN = ('tuple', 'tuple')
 
 _ROWS = {}      # space name -> list of rows (the row alphabet)
 _SEED = 0
@@ -45,7 +57,8 @@ def _alphabets(seed):
     return {'w1': [(v,) for v in k6],
             'w2': [(u, v) for u in k3 for v in k3],
             'w1s': [(v,) for v in k3],
-            'w2s': [(u, v) for u in (k3[0], k3[1]) for v in (k3[0], k3[2])]}
+            'w2s': [(u, v) for u in (k3[0], k3[1]) for v in (k3[0], k3[2])],
+            'w3': [(u, v, w) for u in (k3[0], k3[1]) for v in (k3[1], k3[2]) for w in (k3[0], k3[2])]}
 
 
 def setup(tier, seed):
@@ -128,8 +141,17 @@ def make_b(form, a, b):
     return (tuple(bhdr[i] for i in p), tuple(tuple(r[i] for i in p) for r in brows))
 
 
-def _tbl(t):
-    return (tuple(t[0]),) + tuple(tuple(r) for r in t[1])
+def _tbl(t, container='tuple'):
+    if container == 'tuple':
+        return (tuple(t[0]),) + tuple(tuple(r) for r in t[1])
+    lol = [list(t[0])] + [list(r) for r in t[1]]
+    if container == 'list':
+        return lol
+    if container == 'wrap':
+        return etl.wrap(lol)
+    if container == 'sortview':
+        return etl.sort(lol)
+    raise ValueError(container)
 
 
 def _read(view):
@@ -138,11 +160,11 @@ def _read(view):
     return (hdr, [tuple(r) for r in it])
 
 
-def observe(form, a, bgiven):
+def observe(form, a, bgiven, cont=PLAIN):
     """Run the form on the real code.  Returns ('ok', out) / ('ok2', added, subtracted) / ('raises', name, msg)."""
     op, strict, bs, pre, bvar = form
-    ta, tb = _tbl(a), _tbl(bgiven)
     try:
+        ta, tb = _tbl(a, cont[0]), _tbl(bgiven, cont[1])
         if op == 'complement':
             return ('ok', _read(etl.complement(ta, tb, presorted=pre, buffersize=bs, strict=strict)))
         if op == 'intersection':
@@ -188,10 +210,10 @@ def expected(form, a, bgiven):
     raise ValueError(op)
 
 
-def judge(form, a, bgiven, obs=None):
+def judge(form, a, bgiven, obs=None, cont=PLAIN):
     """All failures of one form on one pair: list of (signature, expected, observed, message)."""
     if obs is None:
-        obs = observe(form, a, bgiven)
+        obs = observe(form, a, bgiven, cont)
     name = form_name(form)
     if obs[0] == 'raises':
         return [('raises', 'a table', '%s: %s' % (obs[1], obs[2]),
@@ -216,12 +238,16 @@ F_COMPLEMENT = ('complement', False, None, False, 'same')
 F_INTERSECTION = ('intersection', False, None, False, 'same')
 
 
-def reassembly(a, bgiven, oc=None, oi=None):
+F_COMPLEMENT_PRE = ('complement', False, None, True, 'same')
+F_INTERSECTION_PRE = ('intersection', False, None, True, 'same')
+
+
+def reassembly(a, bgiven, oc=None, oi=None, cont=PLAIN, pre=False):
     """complement(a, b) (non-strict) together with intersection(a, b) must give back a."""
     if oc is None:
-        oc = observe(F_COMPLEMENT, a, bgiven)
+        oc = observe(F_COMPLEMENT_PRE if pre else F_COMPLEMENT, a, bgiven, cont)
     if oi is None:
-        oi = observe(F_INTERSECTION, a, bgiven)
+        oi = observe(F_INTERSECTION_PRE if pre else F_INTERSECTION, a, bgiven, cont)
     if oc[0] != 'ok' or oi[0] != 'ok':
         return []   # reported by judge() as 'raises'
     got = Counter(oc[1][1]) + Counter(oi[1][1])
@@ -253,6 +279,7 @@ _SEL = {
     'all': lambda n, m: True,
     'n+m<=5': lambda n, m: n + m <= 5,
     'n+m==6': lambda n, m: n + m == 6,
+    'n+m<=3': lambda n, m: n + m <= 3,
     '4 rows on one side, n+m<=6': lambda n, m: (n == 4 or m == 4) and n + m <= 6,
     '4 rows on one side, n+m==7': lambda n, m: (n == 4 or m == 4) and n + m == 7,
 }
@@ -267,7 +294,10 @@ def _plan(tier):
                 ('w2', 'w2', 2, 2, 'base', 'all'),
                 ('w2', 'w2', 2, 2, 'buf', 'all'),
                 ('w1s', 'w2', 2, 2, 'base', 'all'),
-                ('w2', 'w1s', 2, 2, 'base', 'all')]
+                ('w2', 'w1s', 2, 2, 'base', 'all'),
+                ('w3', 'w3', 2, 2, 'base', 'n+m<=3'),       # width 3: all 6 column permutations of b
+                ('w1s', 'w1s', 2, 2, 'cont', 'all'),        # row-container axis (15 non-plain combinations)
+                ('w2s', 'w2s', 2, 2, 'cont', 'n+m<=3')]
     return [('w1', 'w1', 3, 3, 'base', 'all'),
             ('w1', 'w1', 3, 3, 'buf', 'n+m<=5'),
             ('w1s', 'w1s', 3, 3, 'buf', 'n+m==6'),
@@ -278,7 +308,10 @@ def _plan(tier):
             ('w2', 'w1s', 2, 2, 'base', 'all'),
             ('w1s', 'w2', 2, 2, 'buf', 'all'),
             ('w1', 'w1', 4, 4, 'base', '4 rows on one side, n+m<=6'),
-            ('w1s', 'w1s', 4, 4, 'base', '4 rows on one side, n+m==7')]
+            ('w1s', 'w1s', 4, 4, 'base', '4 rows on one side, n+m==7'),
+            ('w3', 'w3', 2, 2, 'base', 'all'),
+            ('w1s', 'w1s', 3, 3, 'cont', 'all'),
+            ('w2s', 'w2s', 2, 2, 'cont', 'all')]
 
 
 def items(tier, seed):
@@ -288,7 +321,9 @@ def items(tier, seed):
     for tot in range(0, 9):
         for sa, sb, maxn, maxm, fs, sel in plan:
             ra, rb = len(_ROWS[sa]), len(_ROWS[sb])
-            target = 1500 if fs == 'base' else 350
+            target = {'base': 1500, 'buf': 350, 'cont': 100}[fs]
+            if sa == 'w3':
+                target = 700
             for n in range(0, maxn + 1):
                 m = tot - n
                 if m < 0 or m > maxm or not _SEL[sel](n, m):
@@ -307,6 +342,8 @@ def bounds(tier, seed):
         k = '%s x %s [%s]' % (sa, sb, fs)
         pairs[k] = pairs.get(k, 0) + (hi - lo) * len(_ROWS[sb]) ** m
     return {'blocks': [list(map(str, b)) for b in _plan(tier)], 'pairs_per_block': pairs,
+            'row_containers': list(CONTAINERS), 'container_combinations_in_cont_blocks': len(CONTAINERS) ** 2 - 1,
+            'column_permutations': {w: _perms(w) for w in (1, 2, 3)},
             'alphabets': {k: [list(map(repr, r)) for r in v] for k, v in _ROWS.items()}}
 
 
@@ -320,8 +357,9 @@ def _width(space):
     return len(_ROWS[space][0])
 
 
-def case_of(form, a, bgiven, law=None, sig=None):
+def case_of(form, a, bgiven, law=None, sig=None, cont=PLAIN):
     c = {'op': form[0], 'strict': form[1], 'buffersize': form[2], 'presorted': form[3], 'bvar': form[4],
+         'rows_a': cont[0], 'rows_b': cont[1],
          'a': [tuple(a[0])] + [tuple(r) for r in a[1]],
          'b': [tuple(bgiven[0])] + [tuple(r) for r in bgiven[1]]}
     if law:
@@ -331,47 +369,80 @@ def case_of(form, a, bgiven, law=None, sig=None):
     return c
 
 
+def container_combos(fs, asorted, bsorted):
+    """Row-container combinations of one pair: plain tuples for the 'base'/'buf' form sets; every other
+    combination for 'cont' ('sortview' only on a side whose rows are already in reference order)."""
+    if fs != 'cont':
+        return [PLAIN]
+    out = []
+    for ca in CONTAINERS:
+        if ca == 'sortview' and not asorted:
+            continue
+        for cb in CONTAINERS:
+            if cb == 'sortview' and not bsorted:
+                continue
+            if (ca, cb) != PLAIN:
+                out.append((ca, cb))
+    return out
+
+
+def group_of(name, sig, cont):
+    return '%s | %s%s' % (name, sig, '' if cont == PLAIN else ' [rows not plain tuples]')
+
+
 def run_item(item, acc):
     sa, sb, n, m, lo, hi, fs = item
     wa, wb = _width(sa), _width(sb)
-    forms = base_forms(wa, wb) if fs == 'base' else buf_forms(wa, wb)
-    pre = presorted_forms() if fs == 'base' else []
+    forms = buf_forms(wa, wb) if fs == 'buf' else base_forms(wa, wb)
+    pre = [] if fs == 'buf' else presorted_forms()
     ahdr, bhdr = HDR[wa], HDR[wb]
     btables = [tuple(t) for t in _tables(sb, m)]
     bsorted = [is_sorted(t) for t in btables]
     for arows in _tables(sa, n, lo, hi):
         a = (ahdr, tuple(arows))
-        asorted = is_sorted(arows) if pre else False
+        asorted = is_sorted(arows)
         for bi, brows in enumerate(btables):
             b = (bhdr, brows)
             nt = nontrivial(a, b)
-            todo = forms + pre if (asorted and bsorted[bi]) else forms
+            both = asorted and bsorted[bi]
+            todo = forms + pre if both else forms
             sig = []
-            keep = {}
-            for form in todo:
-                bgiven = make_b(form, a, b)
-                obs = observe(form, a, bgiven)
-                acc.states += 1
-                acc.transitions += 1 if obs[0] != 'ok2' else 2
-                acc.evals += 1
-                name = form_name(form)
-                acc.counters['op:' + name] += 1
-                if nt:
-                    acc.nontrivial += 1
-                    acc.counters['nt:' + name] += 1
-                if form[3]:
-                    acc.counters['presorted-forms'] += 1
-                for s, e, o, msg in judge(form, a, bgiven, obs):
-                    acc.violation('%s | %s' % (name, s), case_of(form, a, bgiven, sig=s), e, o, msg)
-                if obs[0] == 'ok':
-                    sig.append(len(obs[1][1]))
-                if form == F_COMPLEMENT or form == F_INTERSECTION:
-                    keep[form] = obs
-            if fs == 'base':
-                acc.evals += 1
-                for s, e, o, msg in reassembly(a, b, keep[F_COMPLEMENT], keep[F_INTERSECTION]):
-                    acc.violation('complement+intersection | %s' % s,
-                                  case_of(F_COMPLEMENT, a, b, law='reassembly'), e, o, msg)
+            for cont in container_combos(fs, asorted, bsorted[bi]):
+                keep = {}
+                for form in todo:
+                    bgiven = make_b(form, a, b)
+                    obs = observe(form, a, bgiven, cont)
+                    acc.states += 1
+                    acc.transitions += 1 if obs[0] != 'ok2' else 2
+                    acc.evals += 1
+                    name = form_name(form)
+                    acc.counters['op:' + name] += 1
+                    if nt:
+                        acc.nontrivial += 1
+                        acc.counters['nt:' + name] += 1
+                        acc.counters['nt-rows:%s/%s' % cont] += 1
+                        if form[4].startswith('perm:'):
+                            acc.counters['nt-perm:w%d:%s' % (wa, form[4][5:])] += 1
+                    if form[3]:
+                        acc.counters['presorted-forms'] += 1
+                        if nt:
+                            acc.counters['nt-presorted-rows:%s/%s' % cont] += 1
+                    for s, e, o, msg in judge(form, a, bgiven, obs, cont):
+                        acc.violation(group_of(name, s, cont), case_of(form, a, bgiven, sig=s, cont=cont), e, o,
+                                      msg + ('' if cont == PLAIN else ' (rows of a: %s, rows of b: %s)' % cont))
+                    if obs[0] == 'ok':
+                        sig.append(len(obs[1][1]))
+                    if form in (F_COMPLEMENT, F_INTERSECTION, F_COMPLEMENT_PRE, F_INTERSECTION_PRE):
+                        keep[form] = obs
+                if fs != 'buf':
+                    laws = [(False, F_COMPLEMENT, F_INTERSECTION)]
+                    if both:
+                        laws.append((True, F_COMPLEMENT_PRE, F_INTERSECTION_PRE))
+                    for ispre, fc, fi in laws:
+                        acc.evals += 1
+                        for s, e, o, msg in reassembly(a, b, keep[fc], keep[fi]):
+                            acc.violation(group_of('complement+intersection' + ('(presorted)' if ispre else ''), s, cont),
+                                          case_of(fc, a, b, law='reassembly', cont=cont), e, o, msg)
             acc.outcome(tuple(sig))
             if nt and n == m:
                 acc.sample({'a': a, 'b': b, 'a-b': rs.show(rs.complement(a[1], b[1])),
@@ -382,10 +453,11 @@ def replay(case):
     form = (case['op'], case['strict'], case['buffersize'], case['presorted'], case['bvar'])
     a = (tuple(case['a'][0]), tuple(tuple(r) for r in case['a'][1:]))
     b = (tuple(case['b'][0]), tuple(tuple(r) for r in case['b'][1:]))
+    cont = (case.get('rows_a', 'tuple'), case.get('rows_b', 'tuple'))
     if case.get('law') == 'reassembly':
-        bad = reassembly(a, b)
+        bad = reassembly(a, b, cont=cont, pre=bool(case['presorted']))
     else:
-        bad = judge(form, a, b)
+        bad = judge(form, a, b, cont=cont)
         if case.get('sig'):
             bad = [x for x in bad if x[0] == case['sig']]
     if not bad:
@@ -404,4 +476,13 @@ def vacuity(cov, tier):
             problems.append('no non-trivial case for ' + name)
     if not c.get('presorted-forms'):
         problems.append('presorted forms never ran')
+    for ca in CONTAINERS:
+        for cb in CONTAINERS:
+            for kind in ('nt-rows', 'nt-presorted-rows'):
+                if not c.get('%s:%s/%s' % (kind, ca, cb)):
+                    problems.append('no non-trivial case for %s %s/%s' % (kind, ca, cb))
+    for w in (1, 2, 3):
+        for perm in _perms(w):
+            if not c.get('nt-perm:w%d:%s' % (w, perm)):
+                problems.append('no non-trivial record-variant case for width %d permutation %s' % (w, perm))
     return problems
